@@ -63,6 +63,7 @@ Record config := mkCfg {
   c_on_action_end : list nat;
   c_on_hit_end : list nat;
   c_on_death : list nat;
+  c_on_hp_change : list nat;
   c_cycle_limit : Z;
   c_insert_budget : Z }.             (* harness content stops inserting after this many *)
 
@@ -100,7 +101,8 @@ Inductive ev :=
 | VNextAction (id typ evl : Z) | VDefaultAction (id : Z) | VUltCheck (reqs : list (Z * Z * Z))
 | VCall (kind id primary : Z)          (* 0 attack, 1 skill, 2 ult, 3 enemy action *)
 | VSample (chars enemies order : list Z)
-| VDeathSeen (t killer : Z).            (* the content's TargetDeath listener starts *)
+| VDeathSeen (t killer : Z)             (* the content's TargetDeath listener starts *)
+| VHPSeen (t : Z) (dmg : bool).         (* the content's HPChange listener starts (dmg: change by damage) *)
 
 Record result := mkRes { r_dealt : float; r_taken : float; r_dealt_cyc : list float; r_taken_cyc : list float }.
 
@@ -114,7 +116,7 @@ Record sim := mkSim {
   in_attack : option (Z * Z);                 (* key, attacker *)
   next_q : list (Z * list decision);
   ults_q : list (list ultreq);
-  l_battle : list nat; l_action_end : list nat; l_hit_end : list nat; l_death : list nat;
+  lslots : list (list nat);                   (* listener slots: battle, action end, hit end, death, hp change *)
   budget : Z;
   res : result;
   trace : list ev }.
@@ -130,7 +132,7 @@ Definition PRIO_ENEMY_ACTION : Z := 1000.
 (* ---- small helpers ---- *)
 Definition emit (s : sim) (e : list ev) : sim :=
   mkSim (units s) (chars s) (enemies s) (sp s) (turn s) (queue s) (qcounter s) (active_id s)
-        (in_attack s) (next_q s) (ults_q s) (l_battle s) (l_action_end s) (l_hit_end s) (l_death s)
+        (in_attack s) (next_q s) (ults_q s) (lslots s)
         (budget s) (res s) (trace s ++ e).
 
 Fixpoint get_unit (us : list unit) (id : Z) : option unit :=
@@ -140,7 +142,7 @@ Fixpoint put_unit (us : list unit) (u' : unit) : list unit :=
 
 Definition set_units (s : sim) (us : list unit) : sim :=
   mkSim us (chars s) (enemies s) (sp s) (turn s) (queue s) (qcounter s) (active_id s)
-        (in_attack s) (next_q s) (ults_q s) (l_battle s) (l_action_end s) (l_hit_end s) (l_death s)
+        (in_attack s) (next_q s) (ults_q s) (lslots s)
         (budget s) (res s) (trace s).
 Definition upd_unit (s : sim) (u : unit) : sim := set_units s (put_unit (units s) u).
 
@@ -179,7 +181,7 @@ Definition turn_pairs (s : sim) : list (Z * Z) := map (fun u => (u_id u, u_gauge
 
 Definition set_turn (s : sim) (t : tstate F) : sim :=
   mkSim (units s) (chars s) (enemies s) (sp s) t (queue s) (qcounter s) (active_id s)
-        (in_attack s) (next_q s) (ults_q s) (l_battle s) (l_action_end s) (l_hit_end s) (l_death s)
+        (in_attack s) (next_q s) (ults_q s) (lslots s)
         (budget s) (res s) (trace s).
 
 (* engine-facing outcome of running content / the loop *)
@@ -189,37 +191,6 @@ Inductive outcome := Ok (s : sim) | Stop (s : sim)      (* Stop: Termination was
 (* ---- attribute service ---- *)
 Definition clamp01 (x : float) : float :=
   if PrimFloat.ltb 1 x then 1%float else if PrimFloat.ltb x 0 then 0%float else x.
-
-(* emitHPChangeEvents (maxHP only matters for fields that are not compared) *)
-Definition hp_change (s : sim) (u : unit) (newr : float) (is_dmg : bool) (src : Z) : sim :=
-  if PrimFloat.eqb (uhp u) newr then s else
-  let last := if is_dmg then src else ulast u in
-  let s1 := emit (upd_unit s (with_hp u newr (ust u) last)) [VHPChange (uid u) (uhp u) newr] in
-  (* death is final: a dead unit's HP may change, its state does not *)
-  match ust u with
-  | Dead => s1
-  | _ =>
-    if PrimFloat.ltb 0 newr then upd_unit s1 (with_hp u newr Alive last)
-    else
-      (* LimboWaitHeal is cancelable; the harness content cancels iff the unit is "revivable" *)
-      let st := if urev u then Limbo else Dead in
-      emit (upd_unit s1 (with_hp u newr st last)) [VLimbo (uid u) (urev u)]
-  end.
-
-Definition set_hp (s : sim) (id : Z) (amount : float) : sim :=
-  match get_unit (units s) id with
-  | None => s
-  | Some u => hp_change s u (clamp01 (PrimFloat.div amount (umax u))) false id
-  end.
-
-(* ModifyHPByAmount(-dmg, isDamage=true) *)
-Definition damage_hp (s : sim) (id src : Z) (dmg : float) : sim :=
-  match get_unit (units s) id with
-  | None => s
-  | Some u =>
-      let newhp := PrimFloat.add (PrimFloat.mul (uhp u) (umax u)) (PrimFloat.opp dmg) in
-      hp_change s u (clamp01 (PrimFloat.div newhp (umax u))) true src
-  end.
 
 Definition set_energy (s : sim) (id : Z) (amt : float) : sim :=
   match get_unit (units s) id with
@@ -237,7 +208,7 @@ Definition mod_energy_fixed (s : sim) (id : Z) (amt : float) : sim :=
 
 Definition set_sp_field (s : sim) (v : Z) : sim :=
   mkSim (units s) (chars s) (enemies s) v (turn s) (queue s) (qcounter s) (active_id s)
-        (in_attack s) (next_q s) (ults_q s) (l_battle s) (l_action_end s) (l_hit_end s) (l_death s)
+        (in_attack s) (next_q s) (ults_q s) (lslots s)
         (budget s) (res s) (trace s).
 Definition mod_sp (s : sim) (amt : Z) : sim :=
   let v := Z.max 0 (Z.min 5 (sp s + amt)) in
@@ -246,7 +217,7 @@ Definition mod_sp (s : sim) (amt : Z) : sim :=
 (* ---- queue ---- *)
 Definition set_queue (s : sim) (q : list task) (c : Z) : sim :=
   mkSim (units s) (chars s) (enemies s) (sp s) (turn s) q c (active_id s)
-        (in_attack s) (next_q s) (ults_q s) (l_battle s) (l_action_end s) (l_hit_end s) (l_death s)
+        (in_attack s) (next_q s) (ults_q s) (lslots s)
         (budget s) (res s) (trace s).
 Definition enqueue (s : sim) (prio src : Z) (abort : list Z) (k : taskkind) : sim :=
   set_queue s (queue s ++ [mkTask (qcounter s) prio src abort k]) (qcounter s + 1).
@@ -298,37 +269,44 @@ Definition record_hit (s : sim) (def : Z) (total : float) : sim :=
       let dc := set_nth_f (pad_to (r_dealt_cyc r) (S n) 0%float) n dealt in
       let tc := set_nth_f (pad_to (r_taken_cyc r) (S n) 0%float) n taken in
       mkSim (units s) (chars s) (enemies s) (sp s) (turn s) (queue s) (qcounter s) (active_id s)
-            (in_attack s) (next_q s) (ults_q s) (l_battle s) (l_action_end s) (l_hit_end s) (l_death s)
+            (in_attack s) (next_q s) (ults_q s) (lslots s)
             (budget s) (mkRes dealt taken dc tc) (trace s)
   end.
 
 (* ---- listener slots ---- *)
-Inductive slot := LBattle | LActionEnd | LHitEnd | LDeath.
+Inductive slot := LBattle | LActionEnd | LHitEnd | LDeath | LHP.
+Definition slot_ix (sl : slot) : nat :=
+  match sl with LBattle => 0 | LActionEnd => 1 | LHitEnd => 2 | LDeath => 3 | LHP => 4 end%nat.
+Fixpoint set_nth_l (l : list (list nat)) (n : nat) (v : list nat) : list (list nat) :=
+  match l, n with
+  | [], _ => []
+  | _ :: r, O => v :: r
+  | x :: r, S n' => x :: set_nth_l r n' v
+  end.
+Definition set_slots (s : sim) (l : list (list nat)) : sim :=
+  mkSim (units s) (chars s) (enemies s) (sp s) (turn s) (queue s) (qcounter s) (active_id s)
+        (in_attack s) (next_q s) (ults_q s) l (budget s) (res s) (trace s).
 Definition pop_slot (s : sim) (sl : slot) : option nat * sim :=
-  let mk b a h d := mkSim (units s) (chars s) (enemies s) (sp s) (turn s) (queue s) (qcounter s) (active_id s)
-        (in_attack s) (next_q s) (ults_q s) b a h d (budget s) (res s) (trace s) in
-  match sl with
-  | LBattle => match l_battle s with [] => (None, s) | x :: r => (Some x, mk r (l_action_end s) (l_hit_end s) (l_death s)) end
-  | LActionEnd => match l_action_end s with [] => (None, s) | x :: r => (Some x, mk (l_battle s) r (l_hit_end s) (l_death s)) end
-  | LHitEnd => match l_hit_end s with [] => (None, s) | x :: r => (Some x, mk (l_battle s) (l_action_end s) r (l_death s)) end
-  | LDeath => match l_death s with [] => (None, s) | x :: r => (Some x, mk (l_battle s) (l_action_end s) (l_hit_end s) r) end
+  match nth (slot_ix sl) (lslots s) [] with
+  | [] => (None, s)
+  | x :: r => (Some x, set_slots s (set_nth_l (lslots s) (slot_ix sl) r))
   end.
 
 Definition set_attack (s : sim) (a : option (Z * Z)) : sim :=
   mkSim (units s) (chars s) (enemies s) (sp s) (turn s) (queue s) (qcounter s) (active_id s)
-        a (next_q s) (ults_q s) (l_battle s) (l_action_end s) (l_hit_end s) (l_death s)
+        a (next_q s) (ults_q s) (lslots s)
         (budget s) (res s) (trace s).
 Definition set_budget (s : sim) (b : Z) : sim :=
   mkSim (units s) (chars s) (enemies s) (sp s) (turn s) (queue s) (qcounter s) (active_id s)
-        (in_attack s) (next_q s) (ults_q s) (l_battle s) (l_action_end s) (l_hit_end s) (l_death s)
+        (in_attack s) (next_q s) (ults_q s) (lslots s)
         b (res s) (trace s).
 Definition set_active (s : sim) (a : Z) : sim :=
   mkSim (units s) (chars s) (enemies s) (sp s) (turn s) (queue s) (qcounter s) a
-        (in_attack s) (next_q s) (ults_q s) (l_battle s) (l_action_end s) (l_hit_end s) (l_death s)
+        (in_attack s) (next_q s) (ults_q s) (lslots s)
         (budget s) (res s) (trace s).
 Definition set_lists (s : sim) (c e : list Z) : sim :=
   mkSim (units s) c e (sp s) (turn s) (queue s) (qcounter s) (active_id s)
-        (in_attack s) (next_q s) (ults_q s) (l_battle s) (l_action_end s) (l_hit_end s) (l_death s)
+        (in_attack s) (next_q s) (ults_q s) (lslots s)
         (budget s) (res s) (trace s).
 
 Definition end_attack (s : sim) : sim :=
@@ -355,24 +333,77 @@ Section Scripts.
      theorem is conditional on a normal result. *)
   Definition runner := sim -> Z -> Z -> script -> option sim.
 
+  Definition with_state (u : unit) (st : lstate) : unit :=
+    mkUnit (uid u) (uchar u) (uhp u) (umax u) st (ulast u) (uen u) (umaxen u) (uflags u) (urev u)
+           (uspneed u) (uspadd u) (utt_a u) (utt_s u) (utt_u u) (uacts u).
+
+  (* attribute.emitHPChangeEvents: the new ratio (and, for damage, the last attacker) is stored, the
+     HPChange event is emitted (its listeners run, then it is logged), and only then the life state is
+     decided, on the state the unit has AFTER the listeners: a dead unit stays dead; otherwise a
+     positive new ratio means alive, zero means dead, or limbo when a revive effect answers *)
+  Definition hp_change (R : runner) (s : sim) (u : unit) (newr : float) (is_dmg : bool) (src : Z) : option sim :=
+    if PrimFloat.eqb (uhp u) newr then Some s else
+    let last := if is_dmg then src else ulast u in
+    let s0 := emit (upd_unit s (with_hp u newr (ust u) last)) [VHPSeen (uid u) is_dmg] in
+    let '(sc, s1) := pop_slot s0 LHP in
+    match (match sc with
+           | Some i => R s1 (uid u) (uid u) (nth i (c_scripts cfg) [])
+           | None => Some s1
+           end) with
+    | None => None
+    | Some s2 =>
+        let s3 := emit s2 [VHPChange (uid u) (uhp u) newr] in
+        match get_unit (units s3) (uid u) with
+        | None => Some s3
+        | Some u' =>
+            match ust u' with
+            | Dead => Some s3
+            | _ =>
+                if PrimFloat.ltb 0 newr then Some (upd_unit s3 (with_state u' Alive))
+                else
+                  let st := if urev u' then Limbo else Dead in
+                  Some (emit (upd_unit s3 (with_state u' st)) [VLimbo (uid u) (urev u')])
+            end
+        end
+    end.
+
+  Definition set_hp (R : runner) (s : sim) (id : Z) (amount : float) : option sim :=
+    match get_unit (units s) id with
+    | None => Some s
+    | Some u => hp_change R s u (clamp01 (PrimFloat.div amount (umax u))) false id
+    end.
+
+  (* ModifyHPByAmount(-dmg, isDamage=true) *)
+  Definition damage_hp (R : runner) (s : sim) (id src : Z) (dmg : float) : option sim :=
+    match get_unit (units s) id with
+    | None => Some s
+    | Some u =>
+        let newhp := PrimFloat.add (PrimFloat.mul (uhp u) (umax u)) (PrimFloat.opp dmg) in
+        hp_change R s u (clamp01 (PrimFloat.div newhp (umax u))) true src
+    end.
+
+
   (* performHit for every target, in order; [R] runs the content's HitEnd listener *)
   Fixpoint do_hits (R : runner) (s : sim) (self : Z) (dmg : float) (ts : list Z) : option sim :=
     match ts with
     | [] => Some s
     | d :: ts' =>
         let s2 := emit s [VHitStart self d] in
-        let s3 := damage_hp s2 d self dmg in
-        let hpleft := match get_unit (units s3) d with Some u => uhp u | None => 0%float end in
-        (* HitEnd listeners: statistics first, then the content's *)
-        let s4 := record_hit s3 d dmg in
-        let '(sc, s5) := pop_slot s4 LHitEnd in
-        let r := match sc with
-                 | Some i => R s5 d self (nth i (c_scripts cfg) [])
-                 | None => Some s5
-                 end in
-        match r with
+        match damage_hp R s2 d self dmg with
         | None => None
-        | Some s6 => do_hits R (emit s6 [VHitEnd self d dmg hpleft]) self dmg ts'
+        | Some s3 =>
+            let hpleft := match get_unit (units s3) d with Some u => uhp u | None => 0%float end in
+            (* HitEnd listeners: statistics first, then the content's *)
+            let s4 := record_hit s3 d dmg in
+            let '(sc, s5) := pop_slot s4 LHitEnd in
+            let r := match sc with
+                     | Some i => R s5 d self (nth i (c_scripts cfg) [])
+                     | None => Some s5
+                     end in
+            match r with
+            | None => None
+            | Some s6 => do_hits R (emit s6 [VHitEnd self d dmg hpleft]) self dmg ts'
+            end
         end
     end.
 
@@ -392,7 +423,7 @@ Section Scripts.
         let id := resolve self primary t in
         match get_unit (units s) id with
         | None => Some s
-        | Some u => Some (set_hp s id (PrimFloat.mul frac (umax u)))
+        | Some u => set_hp R s id (PrimFloat.mul frac (umax u))
         end
     | SInsertAbility key prio src abort body =>
         if budget s <=? 0 then Some s
@@ -507,11 +538,11 @@ Section Scripts.
     end.
   Definition set_next (s : sim) (q : list (Z * list decision)) : sim :=
     mkSim (units s) (chars s) (enemies s) (sp s) (turn s) (queue s) (qcounter s) (active_id s)
-          (in_attack s) q (ults_q s) (l_battle s) (l_action_end s) (l_hit_end s) (l_death s)
+          (in_attack s) q (ults_q s) (lslots s)
           (budget s) (res s) (trace s).
   Definition set_ults (s : sim) (q : list (list ultreq)) : sim :=
     mkSim (units s) (chars s) (enemies s) (sp s) (turn s) (queue s) (qcounter s) (active_id s)
-          (in_attack s) (next_q s) q (l_battle s) (l_action_end s) (l_hit_end s) (l_death s)
+          (in_attack s) (next_q s) q (lslots s)
           (budget s) (res s) (trace s).
 
   Definition pop_act (s : sim) (id : Z) : script * sim :=
@@ -679,7 +710,7 @@ Section Scripts.
         | AErr s' => AOk s'                           (* the queued closure drops the error *)
         | x => x
         end
-    | KUlt r => execute_ult fuel s r
+    | KUlt r => execute_ult fuel s (mkUR (t_src t) (ur_type r) (ur_eval r))   (* the closure's target is the task's source *)
     end.
 
   (* ---- executeQueue ---- *)
@@ -809,7 +840,7 @@ Section Scripts.
     let '(t1, outs) := Turn.step F (Turn.init F)
                          (@OAdd F (map (fun id => (id, Turn.lookup F spds id)) (cs ++ es))) in
     let s0 := mkSim us cs es 3 t1 [] 0 0 None (c_next cfg) (c_ults cfg)
-                    (c_on_battle_start cfg) (c_on_action_end cfg) (c_on_hit_end cfg) (c_on_death cfg)
+                    [c_on_battle_start cfg; c_on_action_end cfg; c_on_hit_end cfg; c_on_death cfg; c_on_hp_change cfg]
                     (c_insert_budget cfg) (mkRes 0 0 [0%float] [0%float])
                     [VInitialize; VCharactersAdded cs; VEnemiesAdded es; VTurnTargetsAdded (map u_id (order t1))] in
     match run_slot fuel s0 LBattle 0 0 with
